@@ -144,7 +144,7 @@ var scratchRoot = func() string {
 			var pid int
 			if _, err := fmt.Sscanf(filepath.Base(o), "verif-%d", &pid); err == nil && pid > 0 {
 				comm, err := ioutil.ReadFile(fmt.Sprintf("/proc/%d/comm", pid))
-				if err != nil || strings.TrimSpace(string(comm)) != "verif" {
+				if err != nil || !strings.HasPrefix(strings.TrimSpace(string(comm)), "verif") {
 					_ = os.RemoveAll(o)
 				}
 			}
